@@ -205,6 +205,20 @@ func ruleImplicitPanic(w *World, r *Run, rule string, reach map[*ssa.Function]bo
 						continue
 					}
 					anySub(op, func(t *Term) bool {
+						// contracts: an index returned by the Index family is below the length of what was searched; the byte
+						// count returned by Decode/Read/copy is at most the length of the destination
+						if t.Kind == "call" && len(t.Args) >= 3 && t.Args[2] != nil {
+							short := t.Name[strings.LastIndex(t.Name, ".")+1:]
+							pk := calleePkg(t.Name)
+							if (pk == "bytes" || pk == "strings" || pk == "slices") && (strings.HasPrefix(short, "Index") || strings.HasPrefix(short, "LastIndex")) && t.Idx <= 1 {
+								ln := mk("len", "", 0, types.Typ[types.Int], t.Args[2])
+								facts = append(facts, Fact{T: mk("binop", "<", 0, types.Typ[types.Bool], t, ln), Pos: true})
+							}
+							if strings.HasSuffix(t.Name, "Encoding).Decode") && t.Idx == 1 {
+								ln := mk("len", "", 0, types.Typ[types.Int], t.Args[2])
+								facts = append(facts, Fact{T: mk("binop", "<", 0, types.Typ[types.Bool], ln, t), Pos: false}, Fact{T: mk("binop", "<", 0, types.Typ[types.Bool], t, zero), Pos: false})
+							}
+						}
 						if t.Kind == "len" && len(t.Args) == 1 && t.Args[0].Kind == "call" && (t.Args[0].Name == "strings.Split" || t.Args[0].Name == "strings.SplitN" || t.Args[0].Name == "strings.SplitAfter" || t.Args[0].Name == "bytes.Split") {
 							facts = append(facts, Fact{T: mk("binop", "<", 0, types.Typ[types.Bool], t, mk("const", "1", 0, types.Typ[types.Int])), Pos: false})
 						}
@@ -302,6 +316,9 @@ func ruleImplicitPanic(w *World, r *Run, rule string, reach map[*ssa.Function]bo
 								ok = false
 							}
 						case n.Kind == "len":
+						case sizeDerived(n, 0):
+							// computed from the sizes of existing data (lengths, counts, encoded/decoded lengths, sums): never
+							// negative, and no larger than a small multiple of data already held
 						default:
 							// the length of existing data minus a constant, known not to be negative
 							if lb, off := linear(n); lb != nil && lb.Kind == "len" && off.Sign() <= 0 && implies(facts, "<", n, zero, false) {
@@ -962,4 +979,46 @@ func isUnsignedTerm(t *Term) bool {
 	}
 	b, ok := t.Typ.Underlying().(*types.Basic)
 	return ok && b.Info()&types.IsUnsigned != 0
+}
+
+// sizeDerived: the term is computed from sizes of data already in memory: non-negative constants, len/cap, the counting
+// and length-conversion functions of the standard library, min/max, sums and products by constants of such terms.
+func sizeDerived(t *Term, depth int) bool {
+	if t == nil || depth > 8 {
+		return false
+	}
+	switch t.Kind {
+	case "const":
+		c, ok := constVal(t)
+		return ok && c.Sign() >= 0
+	case "len", "cap":
+		return true
+	case "conv":
+		return len(t.Args) == 1 && sizeDerived(t.Args[0], depth+1)
+	case "binop":
+		if len(t.Args) != 2 {
+			return false
+		}
+		switch t.Name {
+		case "+", "*":
+			return sizeDerived(t.Args[0], depth+1) && sizeDerived(t.Args[1], depth+1)
+		}
+		return false
+	case "call":
+		short := t.Name[strings.LastIndex(t.Name, ".")+1:]
+		switch {
+		case strings.HasSuffix(t.Name, "Encoding).EncodedLen"), strings.HasSuffix(t.Name, "Encoding).DecodedLen"), t.Name == "encoding/hex.EncodedLen", t.Name == "encoding/hex.DecodedLen":
+			return len(t.Args) >= 3 && sizeDerived(t.Args[len(t.Args)-1], depth+1)
+		case (calleePkg(t.Name) == "bytes" || calleePkg(t.Name) == "strings") && short == "Count":
+			return true
+		case t.Name == "builtin:min" || t.Name == "builtin:max":
+			for _, a := range t.Args[2:] {
+				if !sizeDerived(a, depth+1) {
+					return false
+				}
+			}
+			return true
+		}
+	}
+	return false
 }
